@@ -218,3 +218,548 @@ def constant_iri_namespace(repo: Repo, mod: Module, e: ast.expr, known: Iterable
         if s.startswith(k) and (best is None or len(k) > len(best)):
             best = k
     return best if best is not None else s
+
+
+# ======================================================================================================================
+# round 2 (rules t - z): a partial evaluator of side-effect-free string / boolean expressions.  It is used to ask what a
+# guard of the analysed code (a regular-expression test, startswith/endswith, a comparison with a constant ...) answers
+# for a PROBE value - the patterns are the library's own constants, resolved from the source; nothing of the library is
+# imported or run, only `re` / `str` of the standard library on the probe strings.
+# ======================================================================================================================
+import re as _re
+
+
+class _Unknown:
+    def __repr__(self) -> str:
+        return "UNK"
+
+    def __bool__(self) -> bool:  # never truth-test UNK by accident
+        raise TypeError("UNK has no truth value")
+
+
+UNK = _Unknown()
+
+_STR_METHODS = {"startswith", "endswith", "replace", "lower", "upper", "strip", "lstrip", "rstrip", "isdigit", "isalpha", "isalnum",
+                "join", "split", "rsplit", "find", "rfind", "count", "format", "encode", "decode", "partition", "rpartition", "title"}
+_PAT_METHODS = {"search", "match", "fullmatch", "sub", "findall", "split"}
+_RE_FUNCS = {"search", "match", "fullmatch", "sub", "compile", "escape", "findall", "split"}
+_IDENT_CALLS = {"str", "URIRef", "Namespace"}  # wrappers that keep the text
+
+
+def known(v) -> bool:
+    return v is not UNK
+
+
+def truth(v):
+    """True / False / UNK"""
+    if v is UNK:
+        return UNK
+    try:
+        return bool(v)
+    except Exception:
+        return UNK
+
+
+class StrEval:
+    """value of an expression of module `mod` under `env` (local name -> concrete value); UNK when it is not decided.
+    `call_hook(call)` may give the value of a call the evaluator does not know (a probe standing for a look-up)."""
+
+    _cache: dict = {}
+
+    def __init__(self, repo: Repo, mod: Module, env: Optional[dict] = None, call_hook=None):
+        self.repo, self.mod, self.env, self.call_hook = repo, mod, dict(env or {}), call_hook
+
+    # -- module-level constants (followed through imports)
+    def _global(self, name: str, depth: int):
+        key = (id(self.repo), self.mod.name, name)
+        if key in StrEval._cache:
+            return StrEval._cache[key]
+        StrEval._cache[key] = UNK  # cycle guard
+        r = resolve_name(self.repo, self.mod, name)
+        v = UNK
+        if r is not None and not isinstance(r[1], ast.ClassDef) and depth < 8:
+            v = StrEval(self.repo, r[0]).ev(r[1], depth + 1)
+        StrEval._cache[key] = v
+        return v
+
+    def ev(self, e: ast.AST, depth: int = 0):
+        try:
+            return self._ev(e, depth)
+        except (IndexError, KeyError, TypeError, ValueError, AttributeError, _re.error, RecursionError, OverflowError):
+            return UNK
+
+    def _args(self, c: ast.Call, depth: int):
+        if c.keywords and any(k.arg is None for k in c.keywords):
+            return None, None
+        a = [self._ev(x, depth) for x in c.args]
+        k = {kw.arg: self._ev(kw.value, depth) for kw in c.keywords}
+        if any(x is UNK for x in a) or any(x is UNK for x in k.values()):
+            return None, None
+        return a, k
+
+    def _ev(self, e: ast.AST, depth: int):
+        if isinstance(e, ast.Constant):
+            return e.value
+        if isinstance(e, ast.Name):
+            if e.id in self.env:
+                return self.env[e.id]
+            if e.id in ("True", "False", "None"):
+                return {"True": True, "False": False, "None": None}[e.id]
+            return self._global(e.id, depth)
+        if isinstance(e, ast.Attribute):
+            sa = norm(e)
+            if sa in self.env:  # self.<attr> bound by the caller
+                return self.env[sa]
+            if isinstance(e.value, ast.Name) and e.value.id == "re" and e.attr.isupper():
+                return int(getattr(_re, e.attr))
+            return UNK
+        if isinstance(e, (ast.Tuple, ast.List)):
+            vs = [self._ev(x, depth) for x in e.elts]
+            if any(v is UNK for v in vs):
+                return UNK
+            return tuple(vs) if isinstance(e, ast.Tuple) else list(vs)
+        if isinstance(e, ast.UnaryOp) and isinstance(e.op, ast.Not):
+            t = truth(self._ev(e.operand, depth))
+            return UNK if t is UNK else (not t)
+        if isinstance(e, ast.UnaryOp) and isinstance(e.op, ast.USub):
+            v = self._ev(e.operand, depth)
+            return -v if isinstance(v, int) else UNK
+        if isinstance(e, ast.BoolOp):
+            is_and = isinstance(e.op, ast.And)
+            unk = False
+            last = UNK
+            for x in e.values:
+                v = self._ev(x, depth)
+                t = truth(v)
+                if t is UNK:
+                    unk = True
+                    continue
+                if t is (not is_and):
+                    return v if not unk else (not is_and)  # a decided short-circuit operand decides the truth value
+                last = v
+            return UNK if unk else last
+        if isinstance(e, ast.IfExp):
+            t = truth(self._ev(e.test, depth))
+            if t is UNK:
+                return UNK
+            return self._ev(e.body if t else e.orelse, depth)
+        if isinstance(e, ast.Compare):
+            left = self._ev(e.left, depth)
+            res = True
+            for op, r in zip(e.ops, e.comparators):
+                right = self._ev(r, depth)
+                if left is UNK or right is UNK:
+                    return UNK
+                if isinstance(op, ast.Eq):
+                    ok = left == right
+                elif isinstance(op, ast.NotEq):
+                    ok = left != right
+                elif isinstance(op, ast.Lt):
+                    ok = left < right
+                elif isinstance(op, ast.LtE):
+                    ok = left <= right
+                elif isinstance(op, ast.Gt):
+                    ok = left > right
+                elif isinstance(op, ast.GtE):
+                    ok = left >= right
+                elif isinstance(op, ast.In):
+                    ok = left in right
+                elif isinstance(op, ast.NotIn):
+                    ok = left not in right
+                elif isinstance(op, ast.Is):
+                    ok = left is right if (left is None or right is None) else UNK
+                elif isinstance(op, ast.IsNot):
+                    ok = left is not right if (left is None or right is None) else UNK
+                else:
+                    return UNK
+                if ok is UNK:
+                    return UNK
+                res = res and bool(ok)
+                left = right
+            return res
+        if isinstance(e, ast.BinOp):
+            l, r = self._ev(e.left, depth), self._ev(e.right, depth)
+            if l is UNK or r is UNK:
+                return UNK
+            if isinstance(e.op, ast.Add) and (isinstance(l, str) and isinstance(r, str) or isinstance(l, int) and isinstance(r, int)):
+                return l + r
+            if isinstance(e.op, ast.Mod) and isinstance(l, str):
+                return l % r
+            if isinstance(e.op, ast.BitOr) and isinstance(l, int) and isinstance(r, int):
+                return l | r
+            if isinstance(e.op, ast.Mult) and isinstance(l, (str, int)) and isinstance(r, int):
+                return l * r
+            return UNK
+        if isinstance(e, ast.Subscript):
+            v = self._ev(e.value, depth)
+            if v is UNK or not isinstance(v, (str, tuple, list)):
+                return UNK
+            if isinstance(e.slice, ast.Slice):
+                lo = None if e.slice.lower is None else self._ev(e.slice.lower, depth)
+                hi = None if e.slice.upper is None else self._ev(e.slice.upper, depth)
+                if lo is UNK or hi is UNK or e.slice.step is not None:
+                    return UNK
+                return v[lo:hi]
+            i = self._ev(e.slice, depth)
+            return v[i] if isinstance(i, int) else UNK
+        if isinstance(e, ast.JoinedStr):
+            out = []
+            for p in e.values:
+                if isinstance(p, ast.Constant):
+                    out.append(str(p.value))
+                elif isinstance(p, ast.FormattedValue) and p.format_spec is None and p.conversion == -1:
+                    v = self._ev(p.value, depth)
+                    if not isinstance(v, str):
+                        return UNK
+                    out.append(v)
+                else:
+                    return UNK
+            return "".join(out)
+        if isinstance(e, ast.Call):
+            if self.call_hook is not None:
+                hv = self.call_hook(e)
+                if hv is not UNK:
+                    return hv
+            f = e.func
+            if isinstance(f, ast.Name):
+                if f.id in _IDENT_CALLS and len(e.args) == 1 and not e.keywords:
+                    v = self._ev(e.args[0], depth)
+                    return v if isinstance(v, str) else UNK
+                if f.id == "len" and len(e.args) == 1:
+                    v = self._ev(e.args[0], depth)
+                    return len(v) if isinstance(v, (str, tuple, list)) else UNK
+                if f.id == "bool" and len(e.args) == 1:
+                    return truth(self._ev(e.args[0], depth))
+                return UNK
+            if isinstance(f, ast.Attribute):
+                if isinstance(f.value, ast.Name) and f.value.id == "re" and "re" not in self.env and f.attr in _RE_FUNCS:
+                    a, k = self._args(e, depth)
+                    return UNK if a is None else getattr(_re, f.attr)(*a, **k)
+                recv = self._ev(f.value, depth)
+                if isinstance(recv, str) and f.attr in _STR_METHODS or isinstance(recv, _re.Pattern) and f.attr in _PAT_METHODS:
+                    if f.attr == "join" and len(e.args) == 1 and isinstance(e.args[0], (ast.GeneratorExp, ast.ListComp)):
+                        return UNK
+                    a, k = self._args(e, depth)
+                    return UNK if a is None else getattr(recv, f.attr)(*a, **k)
+            return UNK
+        return UNK
+
+
+def ordered_assignments(fn: ast.AST) -> list[tuple[ast.expr, ast.expr]]:
+    """assignments(fn) in source order"""
+    return sorted(assignments(fn), key=lambda tv: (getattr(tv[1], "lineno", 0), getattr(tv[1], "col_offset", 0)))
+
+
+def bind_target(env: dict, t: ast.expr, v) -> bool:
+    """env[t] = v for a Name / `self.attr` / tuple-of-those target that has no value yet; True when something was bound"""
+    if v is UNK or v is None:
+        return False  # (a None initialisation says nothing about the value tested later)
+    if isinstance(t, ast.Name):
+        if t.id not in env:
+            env[t.id] = v
+            return True
+        return False
+    if isinstance(t, ast.Attribute) and self_attr(t):
+        if norm(t) not in env:
+            env[norm(t)] = v
+            return True
+        return False
+    if isinstance(t, (ast.Tuple, ast.List)) and isinstance(v, (tuple, list)) and len(v) == len(t.elts):
+        ch = False
+        for x, xv in zip(t.elts, v):
+            ch = bind_target(env, x, xv) or ch
+        return ch
+    return False
+
+
+def probe_env(repo: Repo, mod: Module, fn: ast.AST, call_hook, seed: Optional[dict] = None) -> "StrEval":
+    """evaluator for the function with every local bound (flow-insensitively, first decidable definition in source order) to
+    the value it has when the look-ups named by call_hook answer their probe"""
+    ev = StrEval(repo, mod, dict(seed or {}), call_hook)
+    pairs = ordered_assignments(fn)
+    changed = True
+    while changed:
+        changed = False
+        for t, v in pairs:
+            changed = bind_target(ev.env, t, ev.ev(v)) or changed
+    return ev
+
+
+def reach_decided(g: CFG, decide) -> set[int]:
+    """nodes reachable from the entry when an `if` test that decide(node) -> True/False answers only takes that branch
+    (None = both); exception edges are followed"""
+    seen: set[int] = set()
+    stack = [g.entry]
+    while stack:
+        n = stack.pop()
+        if n in seen:
+            continue
+        seen.add(n)
+        node = g.nodes[n]
+        verdict = decide(node) if node.kind == "test" and isinstance(node.ast, ast.If) else None
+        for s in g.succ[n]:
+            lab = g.edge_label.get((n, s), "")
+            if verdict is True and lab != "true":
+                continue
+            if verdict is False and lab == "true":
+                continue
+            stack.append(s)
+    return seen
+
+
+def _merge_parts(parts: list) -> list:
+    out: list = []
+    for p in parts:
+        if isinstance(p, str):
+            if p == "":
+                continue
+            if out and isinstance(out[-1], str):
+                out[-1] += p
+                continue
+        out.append(p)
+    return out
+
+
+def _is_const_str(e: ast.AST) -> bool:
+    return isinstance(e, ast.Constant) and isinstance(e.value, str)
+
+
+def str_parts(e: ast.AST) -> Optional[list]:
+    """what a string-building expression concatenates, in order: a list of `str` (the constant text) and ast expressions (the
+    values interpolated with str()), whichever way it is spelt - an f-string, `"..%s.." % (a, b)`, `"..{}..".format(a, b)`,
+    `sep.join([a, b])`, `a + ".." + b`, or a nesting of those.  Adjacent constants are merged.  None when the expression is
+    not such a form (or uses a conversion / format spec other than plain str())."""
+    if _is_const_str(e):
+        return _merge_parts([e.value])  # type: ignore[attr-defined]
+    if isinstance(e, ast.JoinedStr):
+        out: list = []
+        for p in e.values:
+            if isinstance(p, ast.Constant):
+                out.append(str(p.value))
+            elif isinstance(p, ast.FormattedValue) and p.format_spec is None and p.conversion in (-1, 115):
+                out.extend(str_parts(p.value) or [p.value])
+            else:
+                return None
+        return _merge_parts(out)
+    if isinstance(e, ast.BinOp) and isinstance(e.op, ast.Add):
+        l, r = str_parts(e.left), str_parts(e.right)
+        if l is None and r is None:
+            return None  # (no sign that this `+` is one of strings)
+        return _merge_parts((l or [e.left]) + (r or [e.right]))
+    if isinstance(e, ast.BinOp) and isinstance(e.op, ast.Mod) and _is_const_str(e.left):
+        tmpl = e.left.value  # type: ignore[attr-defined]
+        pieces = _re.split(r"(%%|%s)", tmpl)
+        if any("%" in x for x in pieces[0::2]):
+            return None  # a conversion other than %s
+        args = list(e.right.elts) if isinstance(e.right, ast.Tuple) else [e.right]
+        if any(isinstance(a, ast.Starred) for a in args) or sum(1 for x in pieces[1::2] if x == "%s") != len(args):
+            return None
+        out = []
+        it = iter(args)
+        for i, x in enumerate(pieces):
+            if i % 2 == 0:
+                out.append(x)
+            elif x == "%%":
+                out.append("%")
+            else:
+                a = next(it)
+                out.extend(str_parts(a) or [a])
+        return _merge_parts(out)
+    if isinstance(e, ast.Call) and isinstance(e.func, ast.Attribute) and _is_const_str(e.func.value) and not e.keywords \
+            and not any(isinstance(a, ast.Starred) for a in e.args):
+        recv = e.func.value.value  # type: ignore[attr-defined]
+        if e.func.attr == "format":
+            import string
+
+            out = []
+            auto = 0
+            try:
+                fields = list(string.Formatter().parse(recv))
+            except ValueError:
+                return None
+            for lit, field, spec, conv in fields:
+                out.append(lit)
+                if field is None:
+                    continue
+                if spec or conv not in (None, "s"):
+                    return None
+                if field == "":
+                    idx = auto
+                    auto += 1
+                elif field.isdigit():
+                    idx = int(field)
+                else:
+                    return None
+                if idx >= len(e.args):
+                    return None
+                out.extend(str_parts(e.args[idx]) or [e.args[idx]])
+            return _merge_parts(out)
+        if e.func.attr == "join" and len(e.args) == 1 and isinstance(e.args[0], (ast.List, ast.Tuple)) \
+                and not any(isinstance(x, ast.Starred) for x in e.args[0].elts):
+            out = []
+            for i, x in enumerate(e.args[0].elts):
+                if i:
+                    out.append(recv)
+                out.extend(str_parts(x) or [x])
+            return _merge_parts(out)
+    return None
+
+
+def joined_by(e: ast.AST, sep: str) -> Optional[list[ast.expr]]:
+    """the expressions e1 .. en (n >= 2) of a string-building expression that evaluates to str(e1) + sep + .. + sep + str(en)
+    and nothing else, however it is spelt (see str_parts); None otherwise"""
+    parts = str_parts(e)
+    if parts is None or len(parts) < 3 or len(parts) % 2 == 0:
+        return None
+    if any(isinstance(x, str) for x in parts[0::2]) or any(x != sep for x in parts[1::2]):
+        return None
+    return list(parts[0::2])
+
+
+def pname_parts(e: ast.AST) -> Optional[tuple[ast.expr, ast.expr]]:
+    """(prefix expression, local expression) of an expression that builds `<prefix>:<local>`: `"%s:%s" % (p, l)` / `":".join([p, l])` /
+    `p + ":" + l` / `f"{p}:{l}"` / `"{}:{}".format(p, l)` (any spelling str_parts reads)"""
+    es = joined_by(e, ":")
+    if es is None or len(es) != 2:
+        return None
+    return es[0], es[1]
+
+
+def interpolations(e: ast.AST) -> Iterator[tuple[ast.expr, bool, str, str]]:
+    """(value, plain, text after, template as shown) of every value a string template interpolates: `plain` says that the value
+    goes in through str() alone (%s, {}, {!s}), `text after` is the constant text between this slot and the next one.  Templates:
+    `"..%s.." % args` (any conversion specs), f-strings, `"..{}..".format(..)`, and `x + "text"` chains."""
+    if isinstance(e, ast.BinOp) and isinstance(e.op, ast.Mod) and _is_const_str(e.left):
+        tmpl = e.left.value  # type: ignore[attr-defined]
+        specs = [m for m in _re.finditer(r"%(?:%|[-#0 +]*\d*(?:\.\d+)?[sdrif])", tmpl) if m.group(0) != "%%"]
+        args = e.right.elts if isinstance(e.right, ast.Tuple) else [e.right]
+        for i, m in enumerate(specs):
+            if i < len(args):
+                end = specs[i + 1].start() if i + 1 < len(specs) else len(tmpl)
+                yield args[i], m.group(0) == "%s", tmpl[m.end():end], norm(e.left)
+    elif isinstance(e, ast.JoinedStr):
+        vs = e.values
+        for i, p in enumerate(vs):
+            if isinstance(p, ast.FormattedValue):
+                after = str(vs[i + 1].value) if i + 1 < len(vs) and isinstance(vs[i + 1], ast.Constant) else ""
+                yield p.value, p.format_spec is None and p.conversion in (-1, 115), after, norm(e)
+    elif isinstance(e, ast.Call) and isinstance(e.func, ast.Attribute) and e.func.attr == "format" and _is_const_str(e.func.value) \
+            and not any(isinstance(a, ast.Starred) for a in e.args) and not any(k.arg is None for k in e.keywords):
+        import string
+
+        try:
+            fields = list(string.Formatter().parse(e.func.value.value))  # type: ignore[attr-defined]
+        except ValueError:
+            return
+        auto = 0
+        kw = {k.arg: k.value for k in e.keywords}
+        for i, (lit, field, spec, conv) in enumerate(fields):
+            if field is None:
+                continue
+            head = _re.match(r"[^.\[]*", field).group(0)  # type: ignore[union-attr]
+            val = None
+            if head == "":
+                val = e.args[auto] if auto < len(e.args) else None
+                auto += 1
+            elif head.isdigit():
+                val = e.args[int(head)] if int(head) < len(e.args) else None
+            else:
+                val = kw.get(head)
+            if val is not None:
+                after = fields[i + 1][0] if i + 1 < len(fields) else ""
+                yield val, head == field and not spec and conv in (None, "s"), after, norm(e.func.value)
+    elif isinstance(e, ast.BinOp) and isinstance(e.op, ast.Add):
+        ops: list[ast.expr] = []
+
+        def flat(x: ast.expr) -> None:
+            if isinstance(x, ast.BinOp) and isinstance(x.op, ast.Add):
+                flat(x.left)
+                flat(x.right)
+            else:
+                ops.append(x)
+
+        flat(e)
+        for i, x in enumerate(ops[:-1]):
+            if not _is_const_str(x) and _is_const_str(ops[i + 1]):
+                yield x, True, ops[i + 1].value, norm(e)  # type: ignore[attr-defined]
+
+
+def cfg_node_exprs(nd) -> Iterator[ast.AST]:
+    """the AST nodes evaluated AT a CFG node (vlib.cfg.Node): the whole simple statement, but of a compound statement only its head"""
+    st = nd.ast
+    if st is None:
+        return
+    if nd.kind == "stmt":
+        yield from ast.walk(st)
+    elif nd.kind == "test":
+        yield from ast.walk(st.test)
+    elif nd.kind == "iter":
+        yield from ast.walk(st.target)
+        yield from ast.walk(st.iter)
+    elif nd.kind == "with":
+        for it in st.items:
+            yield from ast.walk(it)
+    elif nd.kind == "match":
+        yield from ast.walk(st.subject)
+    elif nd.kind == "handler" and getattr(st, "type", None) is not None:
+        yield from ast.walk(st.type)
+
+
+def outcome_implies(test: ast.expr, outcome: bool, atom) -> bool:
+    """does `test` evaluating to `outcome` imply the fact F, where atom(e) says True / False when the sub-expression e being true
+    is equivalent to F / to not F (None: says nothing)?  Follows not / and / or."""
+    a = atom(test)
+    if a is not None:
+        return a is outcome
+    if isinstance(test, ast.UnaryOp) and isinstance(test.op, ast.Not):
+        return outcome_implies(test.operand, not outcome, atom)
+    if isinstance(test, ast.BoolOp):
+        conj = isinstance(test.op, ast.And)
+        # (A and B) true: both true - one of them implying F is enough; (A and B) false: either may be the false one - all must imply F
+        if conj is outcome:
+            return any(outcome_implies(v, outcome, atom) for v in test.values)
+        return all(outcome_implies(v, outcome, atom) for v in test.values)
+    return False
+
+
+def fact_edges(g: CFG, atom) -> set[tuple[int, int]]:
+    """the branch edges (test node, successor) of the CFG whose being taken implies the fact F of `atom` (see outcome_implies)"""
+    out: set[tuple[int, int]] = set()
+    for nd in g.nodes:
+        if nd.kind != "test" or not isinstance(nd.ast, (ast.If, ast.While)):
+            continue
+        for outcome in (True, False):
+            if outcome_implies(nd.ast.test, outcome, atom):
+                for s in g.succ[nd.id]:
+                    lab = g.edge_label.get((nd.id, s), "")
+                    if lab == "exc":
+                        continue
+                    # (every other edge out of a test node that is not labelled "true" is its false outcome: "false", the
+                    # fall-through of an `if` without else, which is a "back" edge when that `if` ends a loop body)
+                    if (lab == "true") is outcome:
+                        out.add((nd.id, s))
+    return out
+
+
+def reach_edges(g: CFG, srcs: Iterable[int], cut: Iterable[tuple[int, int]] = ()) -> set[int]:
+    """nodes reachable from `srcs` (included) without taking an edge of `cut`"""
+    cut = set(cut)
+    seen: set[int] = set()
+    stack = list(srcs)
+    while stack:
+        n = stack.pop()
+        if n in seen:
+            continue
+        seen.add(n)
+        stack.extend(s for s in g.succ[n] if (n, s) not in cut and s not in seen)
+    return seen
+
+
+def module_qual(repo: Repo, full: str) -> Optional[tuple[Module, str]]:
+    """'pkg.mod.Class.meth' -> (Module, 'Class.meth')"""
+    parts = full.split(".")
+    for i in range(len(parts) - 1, 0, -1):
+        m = ".".join(parts[:i])
+        if m in repo.modules:
+            return repo.modules[m], ".".join(parts[i:])
+    return None
